@@ -23,6 +23,7 @@ from fractions import Fraction as F
 from ..core import Sub, fail, close, lit
 
 STEP_LIMIT = 200000
+MAX_FAILS_PER_KIND = 5       # a block case reports at most this many failing inputs per kind of failure
 HXDIR = os.path.dirname(os.path.dirname(os.path.abspath(__file__)))      # .../hxverif
 
 BOUNDS = {
@@ -52,13 +53,17 @@ ASSUMPTIONS = [
     'HEX2DEC(DEC2HEX(n)) = n is the demanded round trip; the intermediate text is not inspected; malformed '
     'hex text and the places argument are not exercised',
     'BASE(n,r) must be the positional representation with digits 0-9A-Z compared case-insensitively; '
-    'DECIMAL with a radix outside 2..36 is not demanded (the statement names BASE)',
+    'DECIMAL is demanded on BASE\'s own output only (on the upper-case reference text only where BASE is already '
+    'wrong); DECIMAL with a radix outside 2..36 is not demanded (the statement names BASE)',
     'ROMAN forms: only "denotes n" under an independent subtractive-notation evaluator (two evaluators, '
     'either may agree) is demanded, not Excel\'s exact concise spellings; ARABIC(ROMAN(n)) = n only for the '
     'omitted form; ROMAN outside 1..3999 / form outside 0..4 is observed but not demanded (not in the '
     'statement\'s list of out-of-range arguments)',
     'an out-of-range argument must yield an error outcome of parse (any code); which code is not demanded',
     'termination = at most 200000 Python line events per parse (C-level stalls are outside the model)',
+    'block cases (hex, base_decimal, roman) evaluate every input but report at most 5 failing inputs per kind of '
+    'failure; after 5 non-terminating inputs the rest of that block is not evaluated (the block is already a '
+    'violation)',
 ]
 
 
@@ -135,6 +140,27 @@ _BUDGET = _Budget()
 NONTERM = ['nonterm', 'more than %d line events' % STEP_LIMIT]
 
 
+class Capped(list):
+    """Failures of one block case: every input of the block is still evaluated, but only the first
+    MAX_FAILS_PER_KIND failing inputs per kind of failure (the formula named in the message) are reported,
+    each with its own narrow replayable case."""
+
+    def __init__(self):
+        list.__init__(self)
+        self.kinds = {}
+        self.nonterm = 0
+
+    def add(self, f):
+        msg = f.get("msg") or ""
+        kind = re.sub(r'[0-9]+', 'N', msg.split(" with ")[0]) + ("|nonterm" if "does not terminate" in msg else "")
+        c = self.kinds.get(kind, 0)
+        self.kinds[kind] = c + 1
+        if kind.endswith('|nonterm'):
+            self.nonterm += 1
+        if c < MAX_FAILS_PER_KIND:
+            self.append(f)
+
+
 def bevo(env, formula, vars=None, fresh=False):
     """Normalised outcome of one evaluation under the step budget (NONTERM when it trips)."""
     tripped = False
@@ -143,6 +169,10 @@ def bevo(env, formula, vars=None, fresh=False):
         p = env.new_parser()
         for k, v in (vars or {}).items():
             p.set_variable(k, v)
+    else:
+        warm = getattr(env, '_cached_parser', None)
+        if warm is not None:                 # build the (cached) parser outside the counted region
+            warm((vars or {}).keys(), (), False)
     _BUDGET.arm()
     try:
         try:
@@ -628,7 +658,7 @@ class HexRoundTrip(Sub):
         kind = case[0]
         if kind == 'one':
             return self.one(env, case[1], case[2])
-        out = []
+        out = Capped()
         if kind in ('rt', 'd2h_out', 'h2d_out'):
             items = ((kind, n) for n in range(case[1], case[2] + 1))
         elif kind == 'pat':
@@ -659,7 +689,7 @@ class HexRoundTrip(Sub):
         for k, n in items:
             f = self.one(env, k, n)
             if f:
-                out.append(f)
+                out.add(f)
         return out
 
     def one(self, env, kind, n):
@@ -727,9 +757,9 @@ def base_special(r):
 class BaseDecimal(Sub):
     name = 'c17.base_decimal'
     rule = ('radix 2..36 x n in 0..N and r^k, r^k+-1 < 2^39, 2^39-1: BASE(n,r) is the positional text with digits '
-            '0-9A-Z (case-insensitive), DECIMAL(BASE(n,r),r) = n, DECIMAL(reference text,r) = n, each within '
-            'the step budget; non-trivial = representation has >= 2 digits or a letter digit')
-    BLOCK = 250
+            '0-9A-Z (case-insensitive) and DECIMAL(BASE(n,r),r) = n (where BASE is wrong: DECIMAL(reference text,r) '
+            '= n instead), each within the step budget; non-trivial = representation has >= 2 digits or a letter digit')
+    BLOCK = 100
     min_cases = 70
     min_nontrivial = 5000
     min_classes = 2
@@ -746,18 +776,28 @@ class BaseDecimal(Sub):
             return self.one(env, case[1], case[2])
         r = case[0]
         ns = range(case[2], case[3] + 1) if case[1] == 'range' else base_special(r)
-        out = []
+        out = Capped()
         for n in ns:
-            out.extend(self.one(env, r, n))
+            self.tally(env, r, n)
+        for n in ns:
+            for f in self.one(env, r, n, tally=False):
+                out.add(f)
+            if out.nonterm >= MAX_FAILS_PER_KIND:
+                break        # repeated non-termination: the rest of this block is not evaluated
         return out
 
-    def one(self, env, r, n):
-        narrow = ['one', r, n]
+    def tally(self, env, r, n):
         ref = ref_base(n, r)
         letters = any(c.isalpha() for c in ref)
         if len(ref) >= 2 or letters:
             env.nt()
         env.note('letter digits' if letters else 'decimal digits only')
+
+    def one(self, env, r, n, tally=True):
+        narrow = ['one', r, n]
+        ref = ref_base(n, r)
+        if tally:
+            self.tally(env, r, n)
         out = []
         vars = {'xn': n, 'xr': r}
         o = bevo(env, 'BASE(xn,xr)', vars)
@@ -777,11 +817,12 @@ class BaseDecimal(Sub):
             o = bevo(env, 'DECIMAL(BASE(xn,xr),xr)', vars)
             if o is NONTERM or getnum(o) is None or getnum(o) != n:
                 out.append(fail('DECIMAL(BASE(xn,xr),xr) with xn=%d, xr=%d gives %r; expected %d (BASE gives %r)' % (
-                    n, r, o, n, ref), n, o, case=narrow))
-        for text in ([ref] if not letters else [ref, ref.lower()]):
-            o = bevo(env, 'DECIMAL(xs,xr)', {'xs': text, 'xr': r})
+                    n, r, o, n, v), n, o, case=narrow))
+        else:
+            # BASE is already wrong here: look at DECIMAL on its own, on the reference text
+            o = bevo(env, 'DECIMAL(xs,xr)', {'xs': ref, 'xr': r})
             if o is NONTERM or getnum(o) is None or getnum(o) != n:
-                out.append(fail('DECIMAL(xs,xr) with xs=%r, xr=%d gives %r; expected %d' % (text, r, o, n), n, o,
+                out.append(fail('DECIMAL(xs,xr) with xs=%r, xr=%d gives %r; expected %d' % (ref, r, o, n), n, o,
                                 case=narrow))
         return out
 
@@ -868,7 +909,7 @@ class Roman(Sub):
     rule = ('n in 1..3999 x forms {omitted,0,1,2,3,4,TRUE,FALSE}: ROMAN(n,form) is a numeral over IVXLCDM that '
             'denotes n under an independent evaluator; ARABIC(ROMAN(n)) = n (variable and literal); n in '
             '{0,-1,4000,5000} and forms {-1,5} observed only; every call within the step budget; non-trivial = '
-            'numeral uses subtractive notation')
+            'n has a decimal digit 4 or 9 (the classic numeral needs subtractive notation)')
     BLOCK = 50
     min_cases = 80
     min_nontrivial = 5000
@@ -890,16 +931,29 @@ class Roman(Sub):
                     return fail('%s with n=%d, form=%r does not terminate within the step budget' % (f, n, form))
                 env.note('outside 1..3999 / 0..4: %s (not demanded)' % ('error' if o[0] == 'e' else 'value'))
             return None
-        out = []
+        out = Capped()
         for n in range(case[0], case[1] + 1):
             for form in FORMS:
-                out.extend(self.one(env, n, form))
+                self.tally(env, n, form)
+        for n in range(case[0], case[1] + 1):
+            for form in FORMS:
+                for f in self.one(env, n, form, tally=False):
+                    out.add(f)
+            if out.nonterm >= MAX_FAILS_PER_KIND:
+                break        # repeated non-termination: the rest of this block is not evaluated
         return out
 
-    def one(self, env, n, form):
+    def tally(self, env, n, form):
+        env.note('form %s' % ('omitted' if form is None else form))
+        if any(c in '49' for c in str(n)):
+            env.nt()
+
+    def one(self, env, n, form, tally=True):
         narrow = ['one', n, form]
         out = []
         f = roman_formula(form)
+        if tally:
+            self.tally(env, n, form)
         o = bevo(env, f, {'xn': n})
         if o is NONTERM:
             return [fail('%s with xn=%d does not terminate within the step budget' % (f, n), None, o, case=narrow)]
@@ -908,9 +962,6 @@ class Roman(Sub):
         if n not in vals:
             out.append(fail('%s with xn=%d gives %r, which %s; expected a Roman numeral denoting %d' % (
                 f, n, o, ('denotes %s' % sorted(vals)) if vals else 'is not a Roman numeral', n), n, o, case=narrow))
-        elif sum(SYM[c] for c in text.upper()) != n:
-            env.nt()
-        env.note('form %s' % ('omitted' if form is None else form))
         if form is None:
             for g, vars in (('ARABIC(ROMAN(xn))', {'xn': n}), ('ARABIC(ROMAN(%d))' % n, None)):
                 o = bevo(env, g, vars)
